@@ -64,10 +64,19 @@ class C17(Prop):
                 if kind == "big" and d < 4 and (op == "alpha" or rng.random() < 0.7):
                     d = rng.randint(4, 5)
             if op == "slice":
-                few = rng.random() < 0.35
+                few = rng.random() < 0.3
+                thin = (not few) and d >= 3 and rng.random() < 0.25
                 if few:
                     npts = rng.randint(2, d)
                     P = np.array([[dyad(rng, 0, 8, 8) for _ in range(d)] for _ in range(npts)])
+                elif thin:
+                    # exactly flat (2-D) cloud in R^d, 16 to 64 times longer than wide: a + s u + t v with dyadic coefficients
+                    a = np.array([dyad(rng, 1, 3, 4) for _ in range(d)]); u = np.array([float(rng.randint(0, 2)) for _ in range(d)]); v = np.array([float(rng.randint(0, 2)) for _ in range(d)])
+                    if not u.any() or not v.any() or np.linalg.matrix_rank(np.vstack([u, v])) < 2:
+                        continue
+                    L_ = rng.choice([16.0, 32.0, 64.0])
+                    P = np.array([a + (L_ * rng.randint(0, 16) / 16) * u + (rng.randint(0, 8) / 8) * v for _ in range(rng.randint(d + 2, d + 8))])
+                    P = np.unique(P, axis=0); kind = "thin"
                 else:
                     P = cloud(rng, d, kind)
                 sums = P.sum(axis=1)
